@@ -118,10 +118,12 @@ impl Sphere {
     }
 
     /// Create the smallest sphere through 2, 3 or 4 boundary points.
-    /// When 0 or 1 points are given, an empty sphere is returned.
+    /// When no points are given, an empty sphere is returned; a single point gives
+    /// the sphere of radius 0 centred on it.
     pub fn from_boundary_points(points: &[DVec3]) -> Self {
         match points.len() {
-            0 | 1 => Self::EMPTY,
+            0 => Self::EMPTY,
+            1 => Self::new(points[0], 0.),
             2 => Self::from_two_points(points[0], points[1]),
             3 => Self::from_three_points(points[0], points[1], points[2]),
             4 => Self::from_four_points(points[0], points[1], points[2], points[3]),
